@@ -879,6 +879,7 @@ type client struct {
 	closed  int32       // the client closed its end on purpose
 	rchunk  int         // slow reader: bytes per read (0 = unthrottled)
 	rpause  time.Duration
+	rfrom   int
 }
 
 func (cl *client) sent(connect bool) {
@@ -1082,9 +1083,14 @@ type slowReader struct {
 	r     io.Reader
 	chunk int
 	pause time.Duration
+	cl    *client
+	from  int32 // throttled from this response on (the warm-up exchanges are read at full speed)
 }
 
 func (s *slowReader) Read(p []byte) (int, error) {
+	if atomic.LoadInt32(&s.cl.resps) < s.from {
+		return s.r.Read(p)
+	}
 	if len(p) > s.chunk {
 		p = p[:s.chunk]
 	}
@@ -1100,7 +1106,7 @@ func (cl *client) reader() {
 	defer close(cl.eof)
 	br := bufio.NewReader(cl.c)
 	if cl.rchunk > 0 {
-		br = bufio.NewReaderSize(&slowReader{cl.c, cl.rchunk, cl.rpause}, 4096)
+		br = bufio.NewReaderSize(&slowReader{cl.c, cl.rchunk, cl.rpause, cl, int32(cl.rfrom)}, 4096)
 	}
 	for n := 0; ; n++ {
 		cl.c.SetReadDeadline(time.Now().Add(40 * time.Second))
@@ -1554,7 +1560,7 @@ func runScenario(sc *scenario) (trace []string, v verdict, counted map[int]bool)
 		if sc.rchunk > 0 {
 			switch sc.pts[k] {
 			case "reqmod", "rt", "resmod", "write", "rbody", "wbody":
-				cl.rchunk, cl.rpause = sc.rchunk<<10, time.Duration(sc.rpause)*time.Microsecond
+				cl.rchunk, cl.rpause, cl.rfrom = sc.rchunk<<10, time.Duration(sc.rpause)*time.Microsecond, sc.x[k]
 			}
 		}
 		if sc.inTunnel(k) {
@@ -2561,7 +2567,9 @@ func slowScn(r *core.Rand, raw bool) string {
 	if r.Chance(1, 3) {
 		op += fmt.Sprintf(" t=1 te=%d d=0", r.Intn(2))
 	}
-	op += fmt.Sprintf(" rk=%d rp=%d", []int{16, 32, 64}[r.Intn(3)], []int{500, 1000, 2000}[r.Intn(3)])
+	// about 32 MB/s (16 MiB in half a second): slower than the proxy writes, fast enough for loaded machines
+	rk := []int{16, 32, 64}[r.Intn(3)]
+	op += fmt.Sprintf(" rk=%d rp=%d", rk, rk*31)
 	if sb := []int{0, 0, 64, 128}[r.Intn(4)]; sb > 0 {
 		op += fmt.Sprintf(" sb=%d", sb)
 	}
